@@ -1,7 +1,6 @@
 import Verif.Gen.Versions
 import Verif.Lemmas.Batching
 import Verif.Lemmas.StdioIn
-import Verif.Gen.BatchSelfTest
 
 /-! # C13 — batches are accepted exactly for protocol versions older than 2025-06-18
 
@@ -124,17 +123,6 @@ theorem c13_mode_follows_last_version (init : Option (List Char)) (sets : List (
 example : modeAfter none [some "2024-11-05".toList, some "2025-06-18".toList] = false
     ∧ modeAfter none [some "2025-06-18".toList, some "2025-03-26".toList] = true := by
   decide
-
-/-! ## Supplementary: the module's own self-test table
-
-`test_version_batching_scenarios()` in `batching.py` carries a table of `(version, expected)` pairs; it is
-REGENERATED here (`Gen/BatchSelfTest.lean`) and must agree with the model of `supports_batching` (guards
-+ regenerated chain) — a table edited to a wrong expectation, or a changed decision, breaks this. -/
-
-theorem c13_selftest_translated : Verif.Gen.BatchSelfTest.translatable = true := by decide
-
-theorem c13_selftest_table_agrees :
-    ∀ c ∈ Verif.Gen.BatchSelfTest.cases, supportsBatching (c.1.map String.toList) = c.2 := by decide
 
 /-! ## Transport part (stdio reader, `Model/StdioIn.lean`)
 
